@@ -1,4 +1,5 @@
 import Tibc.Props.C13
+import Tibc.Expect.Packet
 #print axioms Tibc.C13.port_not_bound
 #print axioms Tibc.C13.ack_port_not_bound
 #print axioms Tibc.C13.relay_not_bound
